@@ -473,7 +473,8 @@ def random_program(env, rng, n_ops, profile="mixed", n_nodes=None, caps=None, pb
             # a register returned by newreg, or the register of a live qubit (any register a client can get hold of);
             # mostly at the owning node, sometimes (refused) at another one; only registers their node still lists
             cands = [("newinreg", rh) for rh in range(len(r.reg_objs)) if r.reg_listed(r.reg_objs[rh])]
-            cands = cands * 3 + [("newinregq", h) for h in live]
+            # (after a misbehaviour of the implementation a live qubit may sit in a register its node does not list: not driven)
+            cands = cands * 3 + [("newinregq", h) for h in live if r.can_do(("newinregq", 0, h))]
             if not cands:
                 r.do(("newreg", rng.randrange(n_nodes), rng.choice([1, 2, 3])))
                 continue
